@@ -134,7 +134,7 @@ def run(ctx):
                 cm = "~" + c + " :~ " if c.strip() else ""
             fn = f"{vn}_{fname}"
             jobs.append({"text": cm + pr["text"].replace(fname, fn), "rows": rows, "fname": fn, "method": 0, "k": 0,
-                         "policy": ["collect", "print"], "capture": True})
+                         "policy": ["collect", "print"], "capture": True, "log_printer": True})
             index.append((pi, vn))
     res = pmap(ctx, runloop.real_run, jobs, chunksize=8)
     by = {}
@@ -175,6 +175,10 @@ def run(ctx):
         npn = d["noprint"][1]
         if obs_key(npn) != obs_key(plain) or npn["ret"] != plain["ret"]:
             fails.append({"kind": "print-mode no-default changes more than standard out", "csvpath": d["noprint"][0]["text"], "rows": rows})
+        elif npn["printers"] != [x for x in plain["printers"] if x != "StdOutPrinter"] or npn["log_printer_lines"] != plain["log_printer_lines"]:
+            fails.append({"kind": "print-mode no-default detached a printer other than the standard-out printer (the caller had attached a LogPrinter and a capturing printer)",
+                          "csvpath": d["noprint"][0]["text"], "rows": rows, "printers_default": plain["printers"], "printers_no_default": npn["printers"],
+                          "log_printer_lines_default": plain["log_printer_lines"], "log_printer_lines_no_default": npn["log_printer_lines"]})
         else:
             out_plain = [l for l in plain["stdout"].split("\n") if l.strip()]
             out_np = [l for l in npn["stdout"].split("\n") if l.strip()]
